@@ -293,8 +293,8 @@ theorem termOK_eq : ∀ (c : List Bytes), PushEngine.termOK c = Terminated c
   | [l] => rfl
   | l :: l2 :: ls => by
     rw [PushEngine.termOK, Terminated, termOK_eq (l2 :: ls), lineOK_eq]
-    intro x hx
-    cases hx
+    intro x
+    cases x
 
 /-- the third check per entry: the patch file is read and parsed -/
 theorem patchOf_of_check {fs : FS} {cfg : Cfg} {e : Series.Entry}
@@ -361,14 +361,39 @@ theorem hypsHold_sound (fs : FS) (cfg : Cfg) (range : List Series.Entry)
     simpa using termBrokenWith_sound hb t' ht' e he
   · exact nodup_of_all_count _ hD
 
-/-! ## the terminated-lines hypothesis does NOT follow from `hypsHold`
+/-! ## why `termOK` needs its `lineOK` part
 
-The file `f` holds `a\n`; `series` lists `p0`, `p1`; `push -a`.  `p0` adds an empty line behind `a\n` (a `+` line whose
-newline the marker `\ No newline at end of file` takes away): the overlay holds the lines `a\n`, `` — `termOK` accepts
-them (only the last line lacks its newline), `Terminated` does not (`lineOK` fails for the empty line: re-reading the bytes
-`a\n` gives one line).  `p1` removes that empty second line and adds `b\n`: it applies to the lines in memory (driver model:
-exit status 0, `f` = `a\nb\n`) and fails on the re-read file (specification: exit status 1, `f.rej`). -/
+An earlier `termOK` (`termOKWeak`) only asked that every line but the last ends with a newline.  The file `f` holds `a\n`;
+`series` lists `p0`, `p1`; `push -a`.  `p0` adds an empty line behind `a\n` (a `+` line whose newline the marker
+`\ No newline at end of file` takes away): the overlay holds the lines `a\n`, `` — `termOKWeak` accepts them (only the
+last line lacks its newline), `Terminated` does not (`lineOK` fails for the empty line: re-reading the bytes `a\n` gives
+one line).  `p1` removes that empty second line and adds `b\n`: it applies to the lines in memory (driver model: exit
+status 0, `f` = `a\nb\n`) and fails on the re-read file (specification: exit status 1, `f.rej`).  Every other conjunct of
+`hypsHold` holds, and so do the other hypotheses of `C05_push_is_pushSpec_all`. -/
 namespace Counter
+
+/-- the earlier, weaker `PushEngine.termOK`: no `lineOK` -/
+def termOKWeak : List Bytes → Bool
+  | [] => true
+  | [_] => true
+  | l :: rest => l.getLast? == some 10 && termOKWeak rest
+
+/-- `PushEngine.hypsHold` with `termBroken` replaced by the replay with the weaker check -/
+def hypsHoldWeak (fs : FS) (cfg : Cfg) (range : List Series.Entry) : Bool :=
+  let keys := PushEngine.rangeKeys fs cfg range
+  Tight.tightB fs &&
+  range.all (fun e =>
+    (match patchKey cfg e.name with | some pk => pk.head? != some [46, 112, 99] | none => true) &&
+    (match safeKey e.name with | some p => p != [] && p.head? != some [97, 112, 112, 108, 105, 101, 100, 45, 112, 97, 116, 99, 104, 101, 115] | none => true) &&
+    (match patchKey cfg e.name with
+     | some pk => (match fs.readFile pk with
+        | .ok (b, _) => (match Parse.parsePatch b e.strip false with | .ok _ => true | .error _ => false)
+        | .error _ => false)
+     | none => false)) &&
+  keys.all (fun k => !PushEngine.ownB cfg k) &&
+  keys.all (fun k => keys.all (fun k' => !(k.length < k'.length && k'.take k.length == k))) &&
+  !termBrokenWith (fun c => !termOKWeak c) fs cfg range &&
+  (let ps := range.map (fun e => safeKey e.name); ps.all (fun p => (ps.filter (· == p)).length == 1))
 
 /-- `--- a/f\n+++ b/f\n@@ -1 +1,2 @@\n a\n+\n\ No\n` -/
 def patch0 : Bytes :=
@@ -404,11 +429,15 @@ theorem plan_of_isApply {p : Plan} {r : List Series.Entry} (h : isApply p r = tr
   · cases h
 
 theorem plan0 : plan cfgA w0.fs = .apply [e0, e1] := plan_of_isApply (by decide)
-theorem hyps0 : PushEngine.hypsHold w0.fs cfgA [e0, e1] = true := by decide
-theorem line0 : lineBroken w0.fs cfgA [e0, e1] = true := by decide
-/-- the overlay after `p0`: `f` with the lines `a\n` and the empty line -/
-theorem reached0 : [([Comp.normal [102]], ({ content := [[97, 10], []], deleted := false, perms := some 0o644 } : AFile))] ∈
-    Agree.reached w0.fs cfgA [e0, e1] [] := by decide
+/-- the weaker mirror says yes … -/
+theorem weak0 : hypsHoldWeak w0.fs cfgA [e0, e1] = true := by decide
+/-- … the mirror as it is now says no -/
+theorem hyps0 : PushEngine.hypsHold w0.fs cfgA [e0, e1] = false := by decide
+/-- the overlays reached: after `p0` the file `f` with the lines `a\n` and the empty line, after `p1` with `a\n`, `b\n` -/
+theorem reached0 :
+    (Agree.reached w0.fs cfgA [e0, e1] []).map (fun t => t.map (fun e => (e.1, e.2.content, e.2.deleted))) =
+      [[([Comp.normal [102]], [[97, 10], []], false)], [([Comp.normal [102]], [[97, 10], [98, 10]], false)]] := by
+  decide
 theorem notTerminated0 : ¬ ∀ t' ∈ Agree.reached w0.fs cfgA [e0, e1] [], Agree.TreeTerminated t' := by decide
 theorem notRefused0 : ¬ Refused cfgA w0.fs [e0, e1] := by
   intro h
@@ -421,22 +450,21 @@ theorem io0 : (Spec.pushSpec cfgA w0.fs).ioError = false := by decide
 theorem specExit0 : (Spec.pushSpec cfgA w0.fs).exit = 1 := by decide
 theorem pushExit0 : (Push.push cfgA w0).1.exit = 0 := by decide
 
-/-- **`hypsHold` does not imply the terminated-lines hypothesis**, and with `hypsHold` in place of the hypotheses the
-conclusion of `C05_push_is_pushSpec_all` fails -/
-theorem hypsHold_not_sound :
+/-- **the weaker mirror is not sound**: it holds, the terminated-lines hypothesis does not, and with the mirror in place
+of the hypotheses the conclusion of `C05_push_is_pushSpec_all` fails -/
+theorem hypsHoldWeak_not_sound :
     ∃ (cfg : Cfg) (w : World) (range : List Series.Entry),
-      PushEngine.hypsHold w.fs cfg range = true ∧ plan cfg w.fs = .apply range ∧ w.faultAt = none ∧
+      hypsHoldWeak w.fs cfg range = true ∧ plan cfg w.fs = .apply range ∧ w.faultAt = none ∧
       cfg.dryRun = false ∧ ¬ Refused cfg w.fs range ∧ (Spec.pushSpec cfg w.fs).ioError = false ∧
       (¬ ∀ t' ∈ Agree.reached w.fs cfg range [], Agree.TreeTerminated t') ∧
       (Push.push cfg w).1.exit ≠ (Spec.pushSpec cfg w.fs).exit :=
-  ⟨cfgA, w0, [e0, e1], hyps0, plan0, rfl, rfl, notRefused0, io0, notTerminated0, by rw [specExit0, pushExit0]; decide⟩
+  ⟨cfgA, w0, [e0, e1], weak0, plan0, rfl, rfl, notRefused0, io0, notTerminated0, by rw [specExit0, pushExit0]; decide⟩
 
 end Counter
 
 #print axioms hypsHold_sound
-#print axioms hypsHold_sound_all
-#print axioms terminated_of_not_broken
 #print axioms termBrokenWith_sound
-#print axioms Counter.hypsHold_not_sound
+#print axioms termBrokenWith_eq
+#print axioms Counter.hypsHoldWeak_not_sound
 
 end RQ.HypsSound
